@@ -297,6 +297,9 @@ def classify_comparator(repo, f):
     if not any(e.kind in ('for', 'while') for e in effs):
         if rv == CMP('Gt', p1, p2) or rv == CMP('Lt', p2, p1):
             return 'gre'
+        rev = lambda x: CALL(S('list'), [CALL(S('reversed'), [x])])
+        if rv == CMP('Lt', rev(p1), rev(p2)) or rv == CMP('Gt', rev(p2), rev(p1)):
+            return 'gen'            # lexicographic from the WORST rank: fewer students there first
         raise Unknown('comparator without a loop: %s' % show(rv)[:80])
     loops = [e for e in effs if e.kind == 'for']
     if len(loops) != 1 or any(e.kind == 'while' for e in effs):
@@ -465,7 +468,7 @@ def check_fold(rep, repo, f, table, comps):
         return
     MP = mp_calls[0].ret
     VALID = v_calls[0].ret
-    rep.check(all(e.args == (b,) for e in mp_calls) and all(e.args == (MP,) for e in v_calls), 'C07.R1', f.where,
+    rep.check(all(e.args and e.args[0] == b and not any(contains(a_, lambda y: y == b) for a_ in e.args[1:]) for e in mp_calls) and all(e.args == (MP,) for e in v_calls), 'C07.R1', f.where,
               'the enumerated tuple is turned into pairs once and that list is what is validated', got='%s ; %s' % (show(MP)[:60], show(VALID)[:70]),
               construct='arguments of get_matching_pairs / is_valid')
     check_matching_pairs(rep, repo, gmp)
@@ -524,6 +527,22 @@ def check_fold(rep, repo, f, table, comps):
         def cmp(self, op, a, c):
             if not (isinstance(a, Abs) and isinstance(c, Abs)):
                 return NOATOM
+            if a.tag == 'rev' and c.tag == 'rev':
+                # reversed profiles compared natively: lexicographic from the WORST rank, the generous order (smaller is better)
+                for x, y, o in ((a.data, c.data, op), (c.data, a.data, FLIP.get(op))):
+                    if o is None or not (isinstance(x, Abs) and isinstance(y, Abs)):
+                        continue
+                    r = self.rel_of(x, y)
+                    if r is None:
+                        continue
+                    if r == 'equal':
+                        return order_cmp(o, 'eq')
+                    order = table[y.data][3] if y.tag == 'old' else None
+                    if order == 'gen':
+                        return order_cmp(o, 'lt' if r == 'better' else 'gt')
+                    problems.append('accumulator %s compared from the worst rank: that is the generous order' % y.data)
+                    raise Unknown('kind')
+                return NOATOM
             for x, y, o in ((a, c, op), (c, a, FLIP.get(op))):
                 if o is None:
                     continue
@@ -536,6 +555,9 @@ def check_fold(rep, repo, f, table, comps):
                 if order in ('gen', 'gre'):
                     if o in ('Eq', 'NotEq'):
                         return order_cmp(o, 'gt')
+                    if order == 'gre':
+                        # Python compares lists lexicographically from the first entry (the best rank): the greedy order itself
+                        return order_cmp(o, 'gt' if r == 'better' else 'lt')
                     problems.append('profile accumulator %s compared with %s instead of its comparator' % (y.data, OPS[o]))
                     raise Unknown('kind')
                 # 'lt' order: better = smaller ; size ('gt' order): better = larger
@@ -545,6 +567,10 @@ def check_fold(rep, repo, f, table, comps):
             return NOATOM
 
         def call(self, t, args):
+            if t[1] == S('reversed') and len(args) == 1 and isinstance(args[0], Abs):
+                return Abs('rev', args[0])
+            if t[1] in (S('list'), S('tuple')) and len(args) == 1 and isinstance(args[0], Abs) and args[0].tag == 'rev':
+                return args[0]
             # comparator call: self.moregen(x, y)
             if t[1][0] == 'attr' and t[1][1] == SELF and t[1][2] in comps and len(args) == 2:
                 kind = comps[t[1][2]]
@@ -684,7 +710,12 @@ def check_matching_pairs(rep, repo, f):
                  want='index < len(row)', construct='search reads one past the end of the row', loc='%s:%d' % (f.relpath, line))
     it = Interp(repo)
     try:
-        effs, rv = it.run(f, {})
+        # optional parameters at their defaults (run() passes the tuple, and possibly a look-up table built once)
+        dflt = {}
+        for a_, d_ in zip(reversed(f.node.args.args), reversed(f.node.args.defaults)):
+            if isinstance(d_, ast.Constant):
+                dflt[a_.arg] = C(d_.value)
+        effs, rv = it.run(f, dflt)
     except Unknown as u:
         rep.inconclusive('C07.R1', f.where, 'get_matching_pairs is inside the interpreted fragment', got=str(u))
         return
@@ -738,6 +769,24 @@ def check_matching_pairs(rep, repo, f):
                     return
             from_row = contains(el, lambda x: x == row)
             other_rows = contains(el, lambda x: x[0] == 'idx' and x[1] == A(lp.MODEL, 'pairs') and x[2] != b)
+            # a per-row table {projectID: pair} consulted with .get(m): the (first / only) pair of row b with that id, else None
+            def row_table(x):
+                if x[0] == 'idx' and x[2] == b and x[1][0] == 'comp' and len(x[1][1]) == 1 and x[1][1][0][1] == TRUE and x[1][1][0][0][3] == A(lp.MODEL, 'pairs'):
+                    rowb, D = x[1][1][0][0], x[1][2]
+                    if D[0] == 'accum' and D[1] in (('dict', ()), CALL(S('dict'), [])) and len(D[2]) == 1 and D[2][0][0] in ('setdefidx', 'setidx') and len(D[2][0][3]) == 1:
+                        op_, key_, val_, ch_ = D[2][0]
+                        pb = ch_[0][0]
+                        return pb[3] == rowb and ch_[0][1] == TRUE and key_ == A(pb, 'projectID') and val_ == pb
+                if x[0] == 'dictcomp' or (x[0] == 'idx' and x[1][0] == 'comp' and x[1][2][0] == 'dictcomp'):
+                    d_ = x if x[0] == 'dictcomp' else x[1][2]
+                    return len(d_[1]) == 1 and d_[1][0][1] == TRUE and d_[2] == A(d_[1][0][0], 'projectID') and d_[3] == d_[1][0][0] and \
+                        (d_[1][0][0][3] == row or (x[0] == 'idx' and x[2] == b and x[1][1][0][0][3] == A(lp.MODEL, 'pairs') and d_[1][0][0][3] == x[1][1][0][0]))
+                return False
+            if el[0] == 'call' and el[1][0] == 'attr' and el[1][2] == 'get' and len(el[2]) in (1, 2) and el[2][0] == mi and (len(el[2]) == 1 or el[2][1] == NONE) \
+                    and row_table(el[1][1]) and guard_ok:
+                rep.ok('C07.R1', f.where, 'student i with project number m != 0 contributes the pair of row i with projectID == m (None when absent); 0 contributes nothing',
+                       got='per-row table {projectID: pair}.get(m)')
+                return
             # every look at the row uses the scan position itself: row[j] tested and row[j] taken (row[j + 1] is another entry)
             subs = {x[2] for x in walk(el) if x[0] == 'idx' and x[1] == row}
             shifted = [k_ for k_ in subs if k_[0] == 'bin']
